@@ -92,15 +92,23 @@ var errnoByName = map[string]syscall.Errno{
 
 var readOnly = map[string]bool{"lstat": true, "stat": true, "open": true, "read": true, "opendir": true}
 
+// Env is the object environment operations are recorded on (sched.Touch).
+var Env = new(int)
+
 // ErrDead is what a crashed thread's file-system calls return: the process is gone.
 var ErrDead = errors.New("process is dead")
 
 // Begin is called at the start of every environment operation: scheduling point, then the
 // environment's answer. A non-nil error means the operation must not be performed.
 func Begin(op, path string) error {
+	// the whole environment (file tree, inotify instances and queues, descriptor accounting) is
+	// one shared object for the happens-before hashing: touched before the point (state the
+	// caller prepared) and after it (the operation itself), also for calls that are no points
+	sched.Touch(Env)
 	if !(W.CoarseReads && readOnly[op]) {
 		sched.Point(op + " " + rel(path))
 	}
+	sched.Touch(Env)
 	t := sched.Current()
 	if t != nil && t.Dead {
 		return ErrDead
